@@ -660,6 +660,14 @@ func lastLines(s string, n int) string {
 // validateCovers replays each reachability-witness model natively and checks
 // that the native run completes without assertion failure and reaches the
 // same cover label (Serval-style validation of the encoder and stubs).
+// coverLabel strips the witness number from a CoverModels key.
+func coverLabel(k string) string {
+	if i := strings.IndexByte(k, 0); i >= 0 {
+		return k[:i]
+	}
+	return k
+}
+
 func validateCovers(prop string, h HarnessSpec, models map[string]map[string]string, overlayFiles map[string]string, pkg *ssa.Package) (int, []string) {
 	dir := filepath.Join(os.TempDir(), fmt.Sprintf("vcheck-validate-%s-%s-%d", prop, h.Func, os.Getpid()))
 	if os.Getenv("GOSYM_KEEP") == "" {
@@ -673,7 +681,7 @@ func validateCovers(prop string, h HarnessSpec, models map[string]map[string]str
 	sort.Strings(labels)
 	var batch strings.Builder
 	for i, l := range labels {
-		vec := replayVector{Property: prop, Pkg: h.Pkg, Harness: h.Func, Kind: "cover", Label: l, Model: models[l]}
+		vec := replayVector{Property: prop, Pkg: h.Pkg, Harness: h.Func, Kind: "cover", Label: coverLabel(l), Model: models[l]}
 		b, _ := json.Marshal(vec)
 		p := filepath.Join(dir, fmt.Sprintf("cover%d.json", i))
 		os.WriteFile(p, b, 0o644)
@@ -696,7 +704,7 @@ func validateCovers(prop string, h HarnessSpec, models map[string]map[string]str
 			}
 			found := false
 			for _, c := range strings.Split(cov, ",") {
-				if c == l {
+				if c == coverLabel(l) {
 					found = true
 				}
 			}
@@ -706,10 +714,10 @@ func validateCovers(prop string, h HarnessSpec, models map[string]map[string]str
 				// the witness depends on the value of an uninterpreted function
 				// (hash); the real function differs, so the cover is not replayable
 			} else {
-				fails = append(fails, fmt.Sprintf("%s: native run did not reach the cover (reached %s)", l, cov))
+				fails = append(fails, fmt.Sprintf("%s: native run did not reach the cover (reached %s)", coverLabel(l), cov))
 			}
 		default:
-			fails = append(fails, fmt.Sprintf("%s: native run: %s", l, line))
+			fails = append(fails, fmt.Sprintf("%s: native run: %s", coverLabel(l), line))
 		}
 	}
 	return okN, fails
